@@ -106,10 +106,12 @@ Definition TI (s : shared) (t : nat) (th : thr) : Prop :=
   | S404 => NoDup (batch th) /\
             (forall c, In c (batch th) -> In (c, t) (taken s) /\ ~ In c (att_ok s ++ att_fail s)) /\
             (stolen s = false -> myid th = 0 \/ In (myid th) (att_ok s) \/ In (myid th) (batch th))
-  | S403 => wok th = true -> incl (batch th) (att_ok s) /\ own s th
+  | S403 => (wok th = true -> incl (batch th) (att_ok s) /\ own s th) /\
+            (wok th = false -> incl (batch th) (att_fail s))
   | MarkC todo => incl todo (att_ok s) /\ own s th
   | S305 | CNotify | S306 => own s th
-  | MarkF2 c _ => In c (errs s)
+  | MarkF1 todo => incl todo (att_fail s)
+  | MarkF2 c r => In c (errs s) /\ In c (att_fail s) /\ incl r (att_fail s)
   | _ => True
   end.
 
@@ -127,6 +129,7 @@ Record SI (s : shared) : Prop := {
   si_log_att : incl (log s) (att_ok s ++ att_fail s);
   si_log : NoDup (log s);
   si_done : forall c, In c (completed s) -> In c (att_ok s) \/ In c (errs s);
+  si_errs : incl (errs s) (att_fail s);
   si_acklen : forall a, In a (acks s) -> 0 <= a_loglen a <= Z.of_nat (length (log s));
   si_acks : stolen s = false -> forall a, In a (acks s) -> ack_ok s a
 }.
@@ -215,14 +218,7 @@ Proof.
       apply andb_true_iff in E. destruct E as [_ E]. apply negb_true_iff in E. apply HT. exact E.
     + inv_some Hst. split; [exact HS|]. exact HT.
   - (* S304 *)
-    assert (Hst' : (if nonempty (pending s)
-                    then Some (sh_drain s t (el && negb (memZ id (pending s))),
-                               set_batch (Thr pr cu S304 k id el b w) (pending s))
-                    else Some (ret (sh_steal s el) t (Thr pr cu S304 k id el b w) ROk)) = Some (s', th'))
-      by (destruct (pending s); exact Hst).
-    clear Hst. rename Hst' into Hst.
-    destruct (nonempty (pending s)) eqn:Ep; [|rename Ep into Ep0]; [rename Ep into Ep1|];
-      [assert (Ep : True) by exact I | assert (Ep : True) by exact I]; cycle 1.
+    destruct (nonempty (pending s)) eqn:Ep; cycle 1.
     + inv_some Hst. split; [|exact I].
       assert (HS' : SI (sh_steal s el)).
       { destruct HS. constructor; cbn [sh_steal pending taken next_id att_ok att_fail log completed errs acks stolen]; auto.
@@ -274,16 +270,19 @@ Proof.
         intros x Hx Hxb. apply written_part_incl in Hxb. apply (Hfresh x Hxb). apply si_log_att0. exact Hx.
       * intros c Hc. destruct (si_done0 c Hc) as [H|H]; [left|right; exact H].
         destruct (write_ok (op_wfail cu) b); [apply in_app_iff; left; exact H | exact H].
+      * destruct (write_ok (op_wfail cu) b); [exact si_errs0 | apply incl_appl; exact si_errs0].
       * intros a Ha. specialize (si_acklen0 a Ha). rewrite app_length. lia.
       * intros Hs a Ha. eapply ack_ok_mono; [| | apply si_acklen0; exact Ha | apply si_acks0; assumption].
         -- cbn [att_ok sh_write]. destruct (write_ok (op_wfail cu) b); [apply incl_appl; apply incl_refl | apply incl_refl].
         -- cbn [log sh_write]. eexists. reflexivity.
-    + unfold TI; cbn [pc set_written wok batch myid sh_write att_ok stolen]. intros Hw. rewrite Hw. split.
+    + unfold TI; cbn [pc set_written wok batch myid sh_write att_ok att_fail stolen]. split; intros Hw; rewrite Hw.
+      * split.
+        -- apply incl_appr. apply incl_refl.
+        -- unfold own. cbn [stolen att_ok myid sh_write set_written]. rewrite Hw. intros Hs. destruct (Hown Hs) as [H|[H|H]]; [left; exact H | right; apply in_app_iff; left; exact H | right; apply in_app_iff; right; exact H].
       * apply incl_appr. apply incl_refl.
-      * unfold own. cbn [stolen att_ok myid sh_write set_written]. rewrite Hw. intros Hs. destruct (Hown Hs) as [H|[H|H]]; [left; exact H | right; apply in_app_iff; left; exact H | right; apply in_app_iff; right; exact H].
   - (* S403 *)
     inv_some Hst. split; [exact HS|]. unfold TI; cbn [pc set_pc].
-    destruct w; [apply HT; reflexivity | exact I].
+    destruct w; [apply (proj1 HT); reflexivity | apply (proj2 HT); reflexivity].
   - (* MarkC *)
     destruct todo as [|c r].
     + inv_some Hst. split; [exact HS|]. unfold TI; cbn. apply HT.
@@ -296,12 +295,13 @@ Proof.
     + inv_some Hst. split; [exact HS | exact I].
     + inv_some Hst. split.
       * destruct HS. constructor; cbn [sh_err pending taken next_id att_ok att_fail log completed errs acks stolen]; auto.
-        intros c' Hc'. destruct (si_done0 c' Hc') as [H|H]; [left; exact H | right; right; exact H].
-      * unfold TI; cbn. left. reflexivity.
+        -- intros c' Hc'. destruct (si_done0 c' Hc') as [H|H]; [left; exact H | right; right; exact H].
+        -- intros c' [<-|Hc']; [apply HT; left; reflexivity | apply si_errs0; exact Hc'].
+      * unfold TI; cbn. split; [left; reflexivity|]. split; [apply HT; left; reflexivity | intros x Hx; apply HT; right; exact Hx].
   - (* MarkF2 *)
-    inv_some Hst. split; [|exact I].
+    inv_some Hst. split; [|unfold TI; cbn; apply HT].
     destruct HS. constructor; cbn [sh_complete pending taken next_id att_ok att_fail log completed errs acks stolen]; auto.
-    intros c' [<-|Hc']; [right; exact HT | apply si_done0; exact Hc'].
+    intros c' [<-|Hc']; [right; apply HT | apply si_done0; exact Hc'].
   - (* S305 *)
     inv_some Hst. split; [|exact HT].
     destruct HS. constructor; cbn [sh_set_fip pending taken next_id att_ok att_fail log completed errs acks stolen]; auto.
@@ -327,6 +327,7 @@ Record ext (t : nat) (s s' : shared) : Prop := {
   ex_done : incl (completed s) (completed s');
   ex_errs : incl (errs s) (errs s');
   ex_ok : incl (att_ok s) (att_ok s');
+  ex_fail : incl (att_fail s) (att_fail s');
   ex_taken : incl (taken s) (taken s');
   ex_stolen : stolen s' = false -> stolen s = false;
   ex_att : forall c, In c (att_ok s' ++ att_fail s') -> In c (att_ok s ++ att_fail s) \/ In (c, t) (taken s)
@@ -353,7 +354,7 @@ Proof.
     constructor; cbn [sh_ack completed errs att_ok att_fail taken stolen]; try apply incl_refl; auto.
   - destruct (fx && negb el); inv_some Hst; [|apply ext_refl].
     constructor; cbn [sh_ack completed errs att_ok att_fail taken stolen]; try apply incl_refl; auto.
-  - destruct (pending s); inv_some Hst.
+  - destruct (nonempty (pending s)); inv_some Hst; cycle 1.
     + constructor; cbn [sh_ack sh_steal completed errs att_ok att_fail taken stolen]; try apply incl_refl; auto.
       intros H. apply orb_false_iff in H. tauto.
     + constructor; cbn [sh_drain completed errs att_ok att_fail taken stolen]; try apply incl_refl; auto.
@@ -362,6 +363,7 @@ Proof.
   - inv_some Hst. destruct HT as [_ [Hb _]].
     constructor; cbn [sh_write completed errs att_ok att_fail taken stolen]; try apply incl_refl; auto.
     + destruct (write_ok (op_wfail cu) b); [apply incl_appl|]; apply incl_refl.
+    + destruct (write_ok (op_wfail cu) b); [|apply incl_appl]; apply incl_refl.
     + intros c Hc.
       assert (Hc' : In c (att_ok s ++ att_fail s) \/ In c b).
       { destruct (write_ok (op_wfail cu) b); rewrite ?in_app_iff in *; tauto. }
@@ -400,9 +402,13 @@ Proof.
       intros Hatt. destruct (ex_att _ _ _ E c Hatt) as [Ha|Ha]; [contradiction|].
       apply Hne. eapply fst_unique; eauto.
     + intros Hs. destruct (H3 (ex_stolen _ _ _ E Hs)) as [Ha|[Ha|Ha]]; [tauto | right; left; apply (ex_ok _ _ _ E); exact Ha | tauto].
-  - intros Hw. destruct (H Hw) as [H1 H2]. split; [intros x Hx; apply (ex_ok _ _ _ E); auto | eapply own_ext; eauto].
+  - destruct H as [Ha Hb]. split.
+    + intros Hw. destruct (Ha Hw) as [H1 H2]. split; [intros x Hx; apply (ex_ok _ _ _ E); auto | eapply own_ext; eauto].
+    + intros Hw x Hx. apply (ex_fail _ _ _ E). apply (Hb Hw). exact Hx.
   - destruct H as [H1 H2]. split; [intros x Hx; apply (ex_ok _ _ _ E); auto | eapply own_ext; eauto].
-  - apply (ex_errs _ _ _ E). exact H.
+  - intros x Hx. apply (ex_fail _ _ _ E). apply H. exact Hx.
+  - destruct H as [H1 [H2 H3]]. split; [apply (ex_errs _ _ _ E); exact H1|].
+    split; [apply (ex_fail _ _ _ E); exact H2 | intros x Hx; apply (ex_fail _ _ _ E); apply H3; exact Hx].
   - eapply own_ext; eauto.
   - eapply own_ext; eauto.
   - eapply own_ext; eauto.
